@@ -67,7 +67,41 @@ def check(engine, ndim, kind, with_ext, chunks):
         return probs or None
 
 
+def check_in_memory(engine):
+    """loaded with the defaults the data is in memory: it keeps its values whatever later happens to the file; attributes with the spellings
+    'None' / 'True' stay strings; re-saving the same values with other attributes stores the new attributes"""
+    import xarray as xr
+    with tmpdir() as d, quiet():
+        name = os.path.join(d, "m")
+        A = xr.Dataset({"v": ("a", np.arange(6.0))}, coords={"a": np.arange(6)}, attrs={"label": "None", "flag": "True", "n": 1})
+        B = xr.Dataset({"v": ("a", np.arange(6.0) + 100)}, coords={"a": np.arange(6)}, attrs={"label": "x", "n": 2})
+        xyz.save_ds(A.copy(deep=True), name, engine=engine)
+        X = xyz.load_ds(name, engine=engine)
+        before = np.array(X["v"].values, copy=True)
+        if X.attrs.get("label") != "None" or X.attrs.get("flag") != "True":
+            return [f"string attributes 'None' / 'True' come back as {X.attrs.get('label')!r} / {X.attrs.get('flag')!r}"]
+        xyz.save_ds(B.copy(deep=True), name, engine=engine)
+        if not np.array_equal(np.asarray(X["v"].values), before):
+            return [f"the dataset loaded earlier changed when the file was saved again: {np.asarray(X['v'].values).tolist()}"]
+        A2 = A.copy(deep=True)
+        A2.attrs["n"] = 7
+        xyz.save_ds(A.copy(deep=True), name, engine=engine)
+        xyz.save_ds(A2, name, engine=engine)
+        Y = xyz.load_ds(name, engine=engine)
+        n = Y.attrs.get("n")
+        if (n.item() if hasattr(n, "item") else n) != 7:
+            return [f"re-saving the same values with attribute n=7 leaves n={n!r} on disk"]
+        X.close()
+        Y.close()
+    return None
+
+
 tried = 0
+for engine in ("h5netcdf", "joblib"):
+    tried += 1
+    pr = check_in_memory(engine)
+    if pr:
+        finish(True, input=dict(engine=engine, history="save A, load, save B over it / re-save with changed attributes"), observed=pr, tried=tried)
 for engine in ("h5netcdf", "joblib"):
     for ndim in range(0, 4):
         for kind in ("float", "complex", "int", "bool", "str"):
